@@ -6,26 +6,139 @@ import TzVerif.Model.TzFile
 namespace TzVerif.Proofs
 open TzVerif.Model
 
+/-! ### helper lemmas -/
+
+theorem readExact_eq_ok {c : Bytes} {n : Nat} {a r : Bytes} :
+    readExact c n = .ok (a, r) ↔ n ≤ c.length ∧ a = c.take n ∧ r = c.drop n := by
+  unfold readExact
+  split
+  · simp_all [eq_comm]
+  · simp only [reduceCtorEq, false_iff]; omega
+
+theorem readExact_eq_error {c : Bytes} {n : Nat} {e : ParseDataError} :
+    readExact c n = .error e ↔ c.length < n ∧ e = .unexpectedEof := by
+  unfold readExact
+  split <;> simp_all [eq_comm] <;> omega
+
+theorem spanWhile_eq (f : Nat → Bool) (l : Bytes) :
+    spanWhile f l = (l.takeWhile f, l.dropWhile f) := by
+  induction l with
+  | nil => rfl
+  | cons b bs ih =>
+    unfold spanWhile
+    by_cases hb : f b = true
+    · simp [hb, ih]
+    · simp [hb]
+
+theorem zero_mem_of_dropWhile_ne_nil (l : Bytes) (h : l.dropWhile (· != 0) ≠ []) : 0 ∈ l := by
+  induction l with
+  | nil => simp at h
+  | cons b bs ih =>
+    by_cases hb : b = 0
+    · simp [hb]
+    · have : (b != 0) = true := by simp [hb]
+      rw [List.dropWhile_cons, if_pos this] at h
+      exact List.mem_cons_of_mem _ (ih h)
+
+theorem LocalTimeType_new_ok {u : Int} {d : Bool} {n : Option (List Nat)} {t : LocalTimeType}
+    (h : LocalTimeType.new u d n = .ok t) : t = ⟨u, d, n⟩ := by
+  unfold LocalTimeType.new at h
+  split at h
+  · contradiction
+  · split at h
+    · simp only [Except.ok.injEq] at h; exact h.symm
+    · split at h
+      · contradiction
+      · rename_i n n' hn
+        unfold TzAsciiStr.new at hn
+        dsimp only at hn
+        split at hn
+        · contradiction
+        · split at hn
+          · contradiction
+          · simp only [Except.ok.injEq] at hn h
+            subst hn; exact h.symm
+
+theorem TimeZone_new_extraRule {tr ty lp rule} {z : TimeZone}
+    (h : TimeZone.new tr ty lp rule = .ok z) : z.extraRule = rule := by
+  unfold TimeZone.new at h
+  dsimp only at h
+  split at h
+  · contradiction
+  · simp only [Except.ok.injEq] at h; subst h; rfl
+
+theorem DataBlocks_parse_some {ts : Nat} {d : DataBlocks} {h : Header} {f : Bytes}
+    {pf : Bytes → Bool → Except TzError (Option TransitionRule)} {z : TimeZone}
+    (hz : DataBlocks.parse ts d h (some f) pf = .ok z) :
+    ∃ rule, pf f (h.version == 3) = .ok rule ∧ z.extraRule = rule := by
+  unfold DataBlocks.parse at hz
+  dsimp only at hz
+  split at hz
+  · contradiction
+  · split at hz
+    · contradiction
+    · split at hz
+      · contradiction
+      · rename_i rule hr
+        exact ⟨rule, hr, TimeZone_new_extraRule hz⟩
+
+/-! ### the rejections -/
+
 theorem reject_short_or_bad_magic (b : Bytes) (h : b.take 4 ≠ [84, 90, 105, 102]) :
     parseTzFile b = .error (.tzFile .invalidMagicNumber) ∨ parseTzFile b = .error (.tzFile (.parseData .unexpectedEof)) := by
-  sorry
+  unfold parseTzFile parseTzFileWith parseHeader
+  by_cases hl : 4 ≤ b.length
+  · left; simp [readExact, hl, h]
+  · right; simp [readExact, hl]
 
 theorem reject_bad_version (rest : Bytes) (v : Nat) (hv : v ≠ 0 ∧ v ≠ 50 ∧ v ≠ 51) :
     parseTzFile ([84, 90, 105, 102, v] ++ rest) = .error (.tzFile .unsupportedTzFileVersion) := by
-  sorry
+  obtain ⟨h0, h1, h2⟩ := hv
+  have e1 : readExact ([84, 90, 105, 102, v] ++ rest) 4 = .ok ([84, 90, 105, 102], v :: rest) := by
+    simp [readExact]
+  have e2 : readExact (v :: rest) 1 = .ok ([v], rest) := by simp [readExact]
+  have hh : parseHeader ([84, 90, 105, 102, v] ++ rest) = .error .unsupportedTzFileVersion := by
+    unfold parseHeader
+    simp only [e1, e2, ne_eq, not_true_eq_false, ↓reduceIte]
+    split
+    · rfl
+    · rename_i hq
+      split at hq <;> simp_all
+  unfold parseTzFile parseTzFileWith
+  rw [hh]
 
 /-- header counts: typecnt = 0, charcnt = 0, isut/isstd count neither 0 nor typecnt -/
 theorem reject_bad_counts (c : Bytes) (h : Header) (rest : Bytes) (hp : parseHeader c = .ok (h, rest)) :
     h.typeCount ≠ 0 ∧ h.charCount ≠ 0 ∧ (h.utLocalCount = 0 ∨ h.utLocalCount = h.typeCount) ∧
     (h.stdWallCount = 0 ∨ h.stdWallCount = h.typeCount) ∧ (h.version = 1 ∨ h.version = 2 ∨ h.version = 3) := by
-  sorry
+  unfold parseHeader at hp
+  repeat' (first | (split at hp <;> try contradiction) | (dsimp only at hp))
+  all_goals
+    rename_i hc
+    simp only [Except.ok.injEq, Prod.mk.injEq] at hp
+    obtain ⟨rfl, rfl⟩ := hp
+    simp only [Bool.not_eq_true', Bool.not_eq_false, Bool.and_eq_true, bne_iff_ne, ne_eq,
+      Bool.or_eq_true, beq_iff_eq] at hc
+    obtain ⟨⟨⟨a1, a2⟩, a3⟩, a4⟩ := hc
+    exact ⟨a1, a2, a3, a4, by simp⟩
 
 /-- a data block shorter than its header announces is an unexpected end of data -/
 theorem reject_truncated_block (ts : Nat) (c : Bytes) (h : Header)
     (hlen : c.length < h.transitionCount * ts + h.transitionCount + h.typeCount * 6 + h.charCount +
               h.leapCount * (ts + 4) + h.stdWallCount + h.utLocalCount) :
     readDataBlocks ts c h = .error (.parseData .unexpectedEof) := by
-  sorry
+  unfold readDataBlocks
+  generalize h.transitionCount * ts = n1 at *
+  generalize h.transitionCount = n2 at *
+  generalize h.typeCount * 6 = n3 at *
+  generalize h.charCount = n4 at *
+  generalize h.leapCount * (ts + 4) = n5 at *
+  generalize h.stdWallCount = n6 at *
+  generalize h.utLocalCount = n7 at *
+  repeat' split
+  all_goals
+    simp_all only [readExact_eq_ok, readExact_eq_error, List.length_drop]
+    try omega
 
 /-- one local time type record: DST flag must be 0/1, the designation index in range and followed by a NUL -/
 theorem reject_bad_type_record (des : Bytes) (cc : Nat) (d : Bytes) (t : LocalTimeType)
@@ -33,13 +146,48 @@ theorem reject_bad_type_record (des : Bytes) (cc : Nat) (d : Bytes) (t : LocalTi
     (d.getD 4 0 = 0 ∨ d.getD 4 0 = 1) ∧ d.getD 5 0 < cc ∧ 0 ∈ des.drop (d.getD 5 0) ∧
     t.isDst = (d.getD 4 0 == 1) ∧ t.utOffset = beSigned (d.take 4) ∧
     t.name = (if (des.drop (d.getD 5 0)).takeWhile (· != 0) = [] then none else some ((des.drop (d.getD 5 0)).takeWhile (· != 0))) := by
-  sorry
+  unfold parseLocalTimeType at h
+  simp only [spanWhile_eq] at h
+  split at h
+  · contradiction
+  · rename_i h4
+    split at h
+    · contradiction
+    · rename_i h5
+      split at h
+      · contradiction
+      · rename_i hr
+        split at h
+        · contradiction
+        · rename_i t' ht
+          simp only [Except.ok.injEq] at h
+          subst h
+          have := LocalTimeType_new_ok ht
+          subst this
+          refine ⟨by omega, by omega, ?_, rfl, rfl, ?_⟩
+          · apply zero_mem_of_dropWhile_ne_nil
+            simpa using hr
+          · simp [List.isEmpty_iff]
 
 /-- indicator pairs other than (0,0), (1,0), (1,1) are refused -/
 theorem indicator_pairs_iff (n : Nat) (sw ul : Bytes) :
     indicatorPairsOk n sw ul = true ↔
       ∀ i, i < n → ((sw.getD i 0 = 0 ∧ ul.getD i 0 = 0) ∨ (sw.getD i 0 = 1 ∧ ul.getD i 0 = 0) ∨ (sw.getD i 0 = 1 ∧ ul.getD i 0 = 1)) := by
-  sorry
+  induction n generalizing sw ul with
+  | zero => simp [indicatorPairsOk]
+  | succ n ih =>
+    unfold indicatorPairsOk
+    simp only [Bool.and_eq_true, Bool.or_eq_true, beq_iff_eq, ih]
+    have hs : ∀ (l : Bytes), l.headD 0 = l.getD 0 0 := by intro l; cases l <;> simp
+    have ht : ∀ (l : Bytes) i, l.tail.getD i 0 = l.getD (i+1) 0 := by intro l i; cases l <;> simp
+    simp only [hs, ht]
+    constructor
+    · rintro ⟨h0, hr⟩ i hi
+      cases i with
+      | zero => exact or_assoc.1 h0
+      | succ j => exact hr j (by omega)
+    · intro hall
+      exact ⟨or_assoc.2 (hall 0 (by omega)), fun i hi => hall (i+1) (by omega)⟩
 
 /-- whatever is accepted has a supported version, a well-sized block and, for versions 2/3, a footer
     that `parseFooter` accepts (C09.footer says what that means) -/
@@ -50,6 +198,37 @@ theorem accepted_structure (b : Bytes) (z : TimeZone) (h : parseTzFile b = .ok z
           readDataBlocks 4 rest hd = .ok (b1, rest1) ∧ parseHeader rest1 = .ok (hd2, rest2) ∧
           readDataBlocks 8 rest2 hd2 = .ok (b2, footer) ∧ parseFooter footer (hd2.version == 3) = .ok rule ∧
           z.extraRule = rule)) := by
-  sorry
+  unfold parseTzFile parseTzFileWith at h
+  split at h
+  · contradiction
+  · rename_i hd rest hh
+    refine ⟨hd, rest, hh, ?_⟩
+    split at h
+    · rename_i hv
+      left
+      refine ⟨hv, ?_⟩
+      split at h
+      · contradiction
+      · rename_i blocks c hb
+        split at h
+        · contradiction
+        · rename_i hc
+          have : c = [] := by simpa using hc
+          subst this
+          exact ⟨blocks, hb⟩
+    · rename_i hv
+      right
+      refine ⟨hv, ?_⟩
+      split at h
+      · contradiction
+      · rename_i b1 rest1 hb1
+        split at h
+        · contradiction
+        · rename_i hd2 rest2 hh2
+          split at h
+          · contradiction
+          · rename_i b2 footer hb2
+            obtain ⟨rule, hr, he⟩ := DataBlocks_parse_some h
+            exact ⟨b1, rest1, hd2, rest2, b2, footer, rule, hb1, hh2, hb2, hr, he⟩
 
 end TzVerif.Proofs
